@@ -1046,7 +1046,7 @@ pub fn run(args: &Args) {
         }
         vw.flush();
     }
-    let n = if args.thorough() { 12000 } else { 1200 };
+    let n = if args.thorough() { 6000 } else { 1200 };
     let _ = leg_name(0);
     for k in 0..n {
         let mut g = Gen { rng: &mut rng, loop_counter: 0 };
